@@ -47,6 +47,8 @@ ASSUMPTIONS = [
     '(canonical), <another column><category> or <no column><category>; the name is expected to be kept, except that '
     'top/bottom generators always, and the others under rename_generators, get the canonical name (docstring of '
     'transfer_generators_from: "renamed according to their new column names")',
+    'the incon-FILE route of t2data.transfer_from is explored only for geometries all of whose block names satisfy '
+    'mulgrids.valid_blockname() (t2incon.read() refuses other names by design, e.g. letter layer names of conventions 1-3)',
     'refine() names its new columns in address-hashed set order: cases are identified by family letters, never by names']
 BOUNDS = {'quick': {'geometries': 'A B G J K L (36 ordered pairs)', 'atmosphere': '3 x 3', 'conventions': '(0,0) (0,1) (2,3)',
                     'variables': '1..5', 'model': 'A, G x 3 atmosphere x conventions 0, 2 x (26 + 11 x 2) generator sets x 2 x 2'},
@@ -961,6 +963,13 @@ def run_model_case(case):
     return found
 
 
+def names_valid(gid, conv, atm):
+    from mulgrids import valid_blockname
+    geo = geometry(gid, conv, 0)
+    set_atm(geo, atm)
+    return all(valid_blockname(n) for n in geo.block_name_list)
+
+
 def model_cases(gid, conv):
     sets = gen_sets()
     for atm in (0, 1, 2):
@@ -980,7 +989,10 @@ def model_cases(gid, conv):
                     if primer:
                         c['primer'] = primer
                     yield c
-        # initial conditions carried in files (sourceinconfilename / inconfilename), 1..6 primary variables
+        # initial conditions carried in files (sourceinconfilename / inconfilename), 1..6 primary variables;
+        # only where every block name has the form t2incon.read() accepts (mulgrids.valid_blockname)
+        if not names_valid(gid, conv, atm):
+            continue
         for nv in (1, 2, 4, 5, 6):
             yield {'kind': 'model', 'g': gid, 'conv': conv, 'atm': atm, 'set': len(sets) - 1, 'preserve': 0, 'rename': 0,
                    'naming': 'canon', 'incon': nv}
